@@ -397,7 +397,7 @@ Proof.
   { destruct (eq_str (kc b) (show c_S_dcl)) eqn:E1; [|reflexivity]. destruct (eq_str (Fun (kc a) s (kc b)) (show c_Sem_Sem)) eqn:E2; [|reflexivity].
     exfalso. apply (eq_str_wf (kc b) c_S_dcl (clear_wf _ _ Wb) eq_refl) in E1.
     apply (eq_str_wf (Fun (kc a) s (kc b)) c_Sem_Sem (clear_wf _ (Fun a s b) W) eq_refl) in E2.
-    unfold c_Sem_Sem in E2. inversion E2 as [[Ea Es Eb]]. rewrite E1 in Eb. Show. vm_compute in Eb. discriminate. }
+    unfold c_Sem_Sem in E2. injection E2 as Ea Es Eb. assert (X : c_S_dcl = c_S_em) by congruence. vm_compute in X. discriminate. }
   destruct (ba_complete (kc a) s (kc b) Hs Hsp) as (r & Hr & Hc & Hl).
   destruct (lift_result backward_application b (Fun a s b) r) as (rs & Hrs & Hin); [inc | assumption | assumption | now split | exact Hr |].
   now exists rs, r.
@@ -459,7 +459,7 @@ Proof.
   destruct (conj_complete x (kc y) (clear_wf _ _ Wy) Hx Hp Ht) as (r & Hr & Hc & Hl).
   assert (Wx : wf puncts x) by (apply wfb_ok; destruct Hx as [<-|[<-|[<-|[]]]]; reflexivity).
   assert (Ux : unary_sys x) by (apply unary_sysb_ok; destruct Hx as [<-|[<-|[<-|[]]]]; reflexivity).
-  rewrite <- (kc_listed x _ eq_refl Hx) in Hr.
+  rewrite <- (kc_listed x [c_comma; c_semi; c_conj] eq_refl Hx) in Hr.
   destruct (lift_result conjunction x y r) as (rs & Hrs & Hin); [inc | assumption | assumption | now split | exact Hr |].
   now exists rs, r.
 Qed.
